@@ -61,6 +61,10 @@ class _Timeout(Exception):
     pass
 
 
+class _Unjudgeable(Exception):
+    """the input has no definite meaning to compare with (e.g. a subshell whose text does not parse)"""
+
+
 def _alarm(signum, frame):
     raise _Timeout()
 
@@ -96,7 +100,7 @@ def _is_exec_list(n):
         and isinstance(n.elts[0].value, ast.Call) and isinstance(n.elts[0].value.func, ast.Name) and n.elts[0].value.func.id == "__import__"
 
 
-def canon_tree(tree, depth=0):
+def canon_tree(tree, depth=0, strict=False):
     """astcanon.root_canon, with one refinement: the text of a `( ... )` subshell (xonsh hands it as a
     raw string to `xonsh -c`) is itself a xonsh program, so it is compared by *its* canonical tree,
     not byte for byte (when it does not parse, the raw text is compared)."""
@@ -114,10 +118,12 @@ def canon_tree(tree, depth=0):
             if not (_is_exec_list(left) or (isinstance(left, ast.BinOp) and _is_exec_list(left.right))):
                 continue
             try:
-                inner = canon_tree(xparse(r.elts[1].value), depth + 1)
-            except _Timeout:
+                inner = canon_tree(xparse(r.elts[1].value), depth + 1, strict)
+            except (_Timeout, _Unjudgeable):
                 raise
             except Exception:  # noqa: BLE001
+                if strict:
+                    raise _Unjudgeable("subshell text does not parse")
                 continue
             r.elts[1].value = ("<subshell>", inner)
     return astcanon.root_canon(tree)
@@ -156,6 +162,7 @@ def verdict(ref, cand):
         return "output-unparsable", "the parser raises %s on the formatted text: %s" % (type(e).__name__, str(e)[:120])
     c2 = canon_tree(t2)
     if c2 != ref.canon:
+        verdict.flags = A.diff_flags(ref.canon, c2)
         return "tree-differs", astcanon.first_diff(ref.canon, c2) or "?"
     try:
         k2, _ = scan(cand)
@@ -224,10 +231,13 @@ def check_source(src, family="?", reduce=True, want_labels=True, tolerate=True):
             return res
         res.out = out
         try:
-            canon = canon_tree(tree)
+            canon = canon_tree(tree, strict=True)
             coms, nlog = scan(src)
         except RecursionError:
             res.status = "skip:input-too-deep"
+            return res
+        except _Unjudgeable:
+            res.status = "skip:subshell-text-unparsable"
             return res
         res.nlog = nlog
         nsrc = _norm(src)
@@ -353,9 +363,23 @@ def _attribute(res, ref, out, script, family, c17_findings, tolerate=True):
         groups.setdefault(fid or sig, []).append(u)
     for key, us in groups.items():
         text = _apply(src, applied + us)
+        verdict.flags = set()
         v = verdict(ref, text)
         if v is None:
             continue
+        if v[0] == "tree-differs" and "macro" in verdict.flags:
+            # the indentation unit (atomic) reaches into the raw body of a `with!` block and the difference is in a macro string
+            for u in us:
+                if len(u) > 1 and any(d["ctx"] == "macro-block" for _, d in u):
+                    for _, d in u:
+                        d["ctx"] = "macro-block"
+        if v[0] == "tree-differs" and "subproc" in verdict.flags and "macro" not in verdict.flags:
+            # the difference shows inside (or is) a subprocess call: the edited text is subprocess text, whatever
+            # the statement's reported line number suggested
+            for u in us:
+                for _, d in u:
+                    if d["ctx"] == "python":
+                        d["ctx"] = "subproc"
         _emit(res, ref, v[0], v[1], us, text, family, c17_findings)
 
 
@@ -476,6 +500,8 @@ _reduced = {}
 
 
 def settle(st, res, src, family, reduce=True):
+    if os.environ.get("C17_NOREDUCE"):
+        reduce = False
     """Move a Result's failures into Stats; reduce the inputs of unattributed ones (the first two of
     every bucket in this worker; the rest is reported unreduced and deduplicated by bucket)."""
     for f in res.failures:
